@@ -715,7 +715,7 @@ theorem HFull.connect {a : String} {aep : Ep} {s : HS} (h : HFull a aep s) (hae 
     exact Serr ecb (by simpa using hne)
   · -- stage 3: the family check and `internal_connect`
     obtain ⟨s2, hs2, hs2v⟩ := sv_some hv2
-    rcases connDial_sum n2 c target hh e0 s2 hs2 with ⟨d1, d2⟩ | ⟨_, d1, d2⟩ | ⟨hl, d1, d2⟩
+    rcases connDial_sum n2 c target hh e0 s2 hs2 with ⟨_, d1, d2⟩ | ⟨_, d1, d2⟩ | ⟨hl, d1, d2⟩
     · rw [show connDial n2 c target hh e0 = (n2, e0 ++ [NEff.post { h := hh, ec := .afNoSupport }]) from Prod.ext d1 d2]
       exact Serr .afNoSupport (by intro h; cases h)
     · -- refused
